@@ -94,8 +94,11 @@ def cfg_const(cfg_text, name, default=None):
     return int(m.group(1)) if m else default
 
 
-def mc_job(name, module, cfgs, props, export=True, strict=True, cap_q=700, cap_t=20000, workers=12, timeout_q=300, timeout_t=3000):
+def mc_job(name, module, cfgs, props, export=True, strict=True, cap_q=None, cap_t=20000, workers=12, timeout_q=300, timeout_t=3000):
     """Model-check MC configs (quick: cfgs['quick'], thorough: cfgs['thorough']) and export the paths as schedules."""
+    if cap_q is None:
+        cap_q = 1800 if module == "MC_Netcode" else 700
+
     def job(tier, wd, rng):
         out = []
         for cfgf in cfgs[tier]:
@@ -108,7 +111,20 @@ def mc_job(name, module, cfgs, props, export=True, strict=True, cap_q=700, cap_t
                 res["paths_total"], res["paths_maximal"] = total, len(paths)
                 cap = cap_q if tier == "quick" else cap_t
                 if len(paths) > cap:
-                    paths = rng.sample(paths, cap)
+                    # half of the budget goes to the behaviours that exercise most (distinct calls, actors, a disconnect followed by
+                    # further handshake traffic, replays / re-addressing), the other half is a uniform sample of the rest
+                    def richness(p):
+                        st = p["steps"]
+                        kinds = {s["a"] for s in st}
+                        actors = {s.get("c") or s.get("conn") or s.get("id") for s in st}
+                        score = len(kinds) + len(actors)
+                        disc = [i for i, s in enumerate(st) if s["a"] in ("sdisconnect", "cdisconnect", "disc") or s.get("call") in ("disconnect", "remove_connection")]
+                        if disc:
+                            score += 2 * sum(1 for s in st[disc[0]:] if s["a"] in ("exchange", "sdeliver", "cstep", "send", "api"))
+                        score += sum(1 for s in st if "from" in s or s["a"] in ("scraft", "hostile"))
+                        return score
+                    ranked = sorted(paths, key=lambda p: (-richness(p), rng.random()))
+                    paths = ranked[:cap // 2] + rng.sample(ranked[cap // 2:], cap - cap // 2)
                 bound = cfg_const(cfg_text, "Bound", 4)
                 rounds = cfg_const(cfg_text, "HealRounds", 4)
                 dt = cfg_const(cfg_text, "HealDt", 300)
@@ -122,6 +138,9 @@ def mc_job(name, module, cfgs, props, export=True, strict=True, cap_q=700, cap_t
                             steps.append({"a": "round", "conn": 1, "dt": dt, "n": rounds - nr})
                     elif module == "MC_Server" and not any(st["a"] == "heal" for st in steps):
                         steps += [{"a": "get_event"}] * 4
+                    elif module == "MC_Transport":
+                        b_ = (mcfg.get("timeout_s", 2) * 1000) // 100 + 12
+                        steps += [{"a": "mark", "mark": "heal", "bound": b_}, {"a": "round", "dt": 100, "n": b_ + 2}]
                     cfg = dict(mcfg)
                     cfg["props"] = props
                     res["schedules"].append({"id": "%s-%d" % (cfgf, i), "cfg": cfg, "steps": steps, "model": True, "strict": strict})
@@ -208,6 +227,7 @@ def run_check(pid, tier, replay=None):
     samples = []
     known_hit = []
     panics = skipped = 0
+    seen_keys, reported_keys, more_violations = {}, set(), 0
     strict_tot = {"runs": 0, "accepted": 0, "matched_events": 0, "drift_runs": 0, "errors": 0}
     drift_samples = []
     from concurrent.futures import ThreadPoolExecutor
@@ -247,6 +267,12 @@ def run_check(pid, tier, replay=None):
             mine = [f for f in fl["flags"] if f[0] in plan.props]
             if not mine:
                 continue
+            # many runs failing the same clause at the same kind of event: a few replay files are enough
+            quick_key = (json.dumps(mine), fl.get("ev"), fl.get("cause"))
+            seen_keys[quick_key] = seen_keys.get(quick_key, 0) + 1
+            if seen_keys[quick_key] > 6 and quick_key in reported_keys:
+                more_violations += 1
+                continue
             ev = event_at(res["trace_path"], fl["run"], fl["i"])
             sig = plan.sig(pid, fl, ev) if plan.sig else signature(pid, fl, ev)
             sched = scheds[fl["run"] - 1] if fl["run"] - 1 < len(scheds) else None
@@ -261,6 +287,7 @@ def run_check(pid, tier, replay=None):
                 json.dump({"property": pid, "clauses": mine, "signature": sig, "event_index": fl["i"], "schedule": sched,
                            "trace": tr, "generator": name}, f)
             violations.append({"where": "impl", "clauses": mine, "replay": rp, "sig": sig})
+            reported_keys.add(quick_key)
 
     for kid in sorted(set(known_hit)):
         k = next(x for x in known if x["id"] == kid)
@@ -297,6 +324,7 @@ def run_check(pid, tier, replay=None):
         "harness_panics_observed": panics,
         "truncated_replays": skipped,
         "known_findings_hit": sorted(set(known_hit)),
+        "further_flagged_runs_not_written_out": more_violations,
         "model_checking": [{k: v for k, v in r.items() if k not in ("text", "schedules")} for r in mc_results],
         "strict_pass": strict_tot,
         "drift_samples": drift_samples,
@@ -454,7 +482,8 @@ def g_nc_handshake(rng, tier, props):
 
 
 def g_nc_shapes(rng, tier, props):
-    return GN.shape_schedules(rng, props, tier != "quick") + GN.token_byte_schedules(rng, props, tier != "quick")
+    return (GN.shape_schedules(rng, props, tier != "quick") + GN.token_byte_schedules(rng, props, tier != "quick")
+            + GN.forged_then_genuine(rng, props, n_of(tier, 40, 600)))
 
 
 def g_nc_bits(rng, tier, props):
@@ -611,7 +640,10 @@ PLANS = {
                      "every kind with fields at 0/1/63/64/16383/16384/2^30-1/2^30/2^62-1, netcode packets of every kind x 15 sequence values x "
                      "payload lengths, tokens with 1..32 IPv4/IPv6 addresses, byte strings (valid encodings, truncations, byte replacements, "
                      "random) for decode-reencode-decode; all cases count as non-trivial, distinct = different step lists"),
-    "C20": Plan("stack", "TraceTransportMon", ["C20"], [("stack", g_stack)], assumptions=[
+    "C20": Plan("stack", "TraceTransportMon", ["C20"], [("stack", g_stack)],
+                mc=[mc_job("transport_glue", "MC_Transport", {"quick": ["MC_C20_q1.cfg"], "thorough": ["MC_C20_q1.cfg"]}, ["C20"], strict=False,
+                           cap_q=250, cap_t=5000)],
+                level="model_checking", assumptions=[
                     "TLC (trace monitor) and the observer module spec/TransportObs.tla are the oracle",
                     "loopback UDP sockets; the relay (harness) sees every datagram; time is the duration argument of the transports' update"],
                 rule="relay fault schedules (drop / duplicate / hold / replay / single-bit corruption per datagram and direction) over 2-3 real "
@@ -620,7 +652,10 @@ PLANS = {
     "C17": Plan("nc", "TraceNetcodeMon", ["C17"], [("bits", g_nc_bits), ("handshake_histories", g_nc_handshake), ("payload_histories", g_nc_payload)],
                 mc=[mc_job("nc_nonce", "MC_Netcode", {"quick": ["MC_NC_q3.cfg"], "thorough": ["MC_NC_q1.cfg", "MC_NC_q2.cfg", "MC_NC_q3.cfg", "MC_NC_q4.cfg"]}, ["C17"], strict=False)],
                 level="model_checking", assumptions=NC_ASSUME),
-    "C18": Plan("nc", "TraceNetcodeMon", ["C18"], [("liveness", g_nc_live)], assumptions=NC_ASSUME),
+    "C18": Plan("nc", "TraceNetcodeMon", ["C18"], [("liveness", g_nc_live)],
+                mc=[mc_job("nc_live", "MC_Netcode", {"quick": ["MC_NC_live_q.cfg"], "thorough": ["MC_NC_live_q.cfg", "MC_NC_live.cfg"]}, ["C18"], strict=False,
+                           timeout_t=3600)],
+                level="model_checking", assumptions=NC_ASSUME),
     "C19": Plan("nc", "TraceNetcodeMon", ["C19"], [("handshake_histories", g_nc_handshake), ("shapes", g_nc_shapes)],
                 mc=[mc_job("nc_cross", "MC_Netcode", {"quick": ["MC_NC_q1.cfg"], "thorough": ["MC_NC_q1.cfg", "MC_NC_q3.cfg"]}, ["C19"], strict=False)],
                 level="model_checking", assumptions=NC_ASSUME),
